@@ -318,6 +318,27 @@ func runC03(c *Ctx) {
 		}
 	}
 	c03Artifact(c, g)
+	// artifact entry point, the INNER Response's and Assertion's fields: with a verified ArtifactResponse
+	// signature nothing below it needs a signature of its own, yet every addressing check still applies
+	for _, signAR := range []bool{true, false} {
+		for _, f := range fields {
+			for k := range variantNames {
+				d := fresh(cfg, false)
+				d.signAssert = !signAR
+				f.apply(d, cfg, k)
+				r := build(cfg, d)
+				n++
+				ars := RespSpec{Tag: "ArtifactResponse", ID: fmt.Sprintf("ar-in-%d", n), IRT: sp("resolve-1"), Issue: d.rs.Issue, Issuer: sp(cfg.IdpEntity), Status: sp(statusSuccess)}
+				ar := buildResponse(ars, r)
+				if signAR {
+					SignInto(ar, 0)
+				}
+				c.Count("class/artifact-inner")
+				addRun(c, g, &Run{Cfg: cfg, IDs: []string{"req-1"}, Now: now, Cur: d.cur, Entry: 1, Rid: "resolve-1", Doc: soapWrap(ar)},
+					map[string]string{"class": "artifact-inner", "f1": f.name, "v1": variantNames[k], "ar_signed": fmt.Sprint(signAR)}, false)
+			}
+		}
+	}
 	randomCombinations(c, g, 400, false)
 }
 
